@@ -718,9 +718,18 @@ def gen_case(rng, idx):
         if rng.random() < 0.3:
             a = a + rng.choice([["--bogus"], ["--preview", "bogus"], ["--output", "json", "--bogus"], ["--only-styles", "nope"]])   # clap rejects
         steps.append({"argv": a})
-    if fam in ("plan", "rename", "search", "replace", "paths", "plan_apply") and rng.random() < 0.2 and steps and "argv" in steps[0] \
+    if fam in ("plan", "rename", "search", "replace", "paths", "plan_apply") and rng.random() < 0.3 and steps and "argv" in steps[0] \
             and "--quiet" not in steps[0]["argv"] and "json" not in steps[0]["argv"]:
         steps[0]["tty"] = True          # stdout on a pseudo-terminal: the coloured renderers
+        # … which only run without --no-color; the coloured diff / matches renderers slice lines at byte columns and do
+        # signed arithmetic on them (preview/diff.rs::highlight_line_with_hunks), so they get hostile lines too
+        a = [x for x in steps[0]["argv"] if x != "--no-color"]
+        if a and a[0] in ("plan", "rename", "search", "replace") and "--bogus" not in a:
+            if "--preview" in a and a.index("--preview") + 1 < len(a):
+                a[a.index("--preview") + 1] = rng.choice(["diff", "diff", "matches", "table"])
+            else:
+                a += ["--preview", rng.choice(["diff", "matches"])]
+        steps[0]["argv"] = a
     # arguments must be passable through execve: no NUL
     for s in steps:
         if "argv" in s:
